@@ -296,6 +296,13 @@ def run_case(ctx, case):
     ctx.sample()
 
 
+class LinkedReq:
+    """a class with one required parameter that a link feeds and another one that stays the user's business"""
+
+    def __init__(self, fed: str, must: int, opt: int = 0):
+        self.fed, self.must, self.opt = fed, must, opt
+
+
 def required_family(ctx, only=None):
     """plain required arguments (top level, in a group, in a subcommand, in a nested subcommand) x omitted / null x channels x the
     defaults flag of the parse methods: enumerated completely (small)"""
@@ -320,6 +327,8 @@ def required_family(ctx, only=None):
         inner2 = ArgumentParser(exit_on_error=False)
         inner2.add_argument("--z", type=int, required=True)
         p.add_argument("--my-inner", action=ActionParser(parser=inner2))  # (an option name with a hyphen: the keys use an underscore)
+        p.add_argument("--lk", type=LinkedReq)
+        p.link_arguments("top", "lk.init_args.fed")  # (fed is not required from the user; must still is)
         sc = p.add_subcommands(required=True)
         fit = ArgumentParser(exit_on_error=False)
         fit.add_argument("--data", type=str, required=True)
@@ -334,10 +343,10 @@ def required_family(ctx, only=None):
         sc2.add_subcommand("fast", fast)
         return p
 
-    full = {"fit": {"top": "t", "grp": {"need": 1}, "inner": {"x": 4}, "after": 6, "my_inner": {"z": 8}, "subcommand": "fit", "fit": {"data": "d"}},
-            "eval": {"top": "t", "grp": {"need": 1}, "inner": {"x": 4}, "after": 6, "my_inner": {"z": 8}, "subcommand": "eval", "eval": {"ckpt": "c", "how": "fast", "fast": {"n": 2}}}}
-    required = {"fit": [["top"], ["grp", "need"], ["fit", "data"], ["inner", "x"], ["after"], ["my_inner", "z"]],
-                "eval": [["top"], ["grp", "need"], ["eval", "ckpt"], ["eval", "fast", "n"], ["inner", "x"], ["after"], ["my_inner", "z"]]}
+    full = {"fit": {"top": "t", "grp": {"need": 1}, "inner": {"x": 4}, "after": 6, "my_inner": {"z": 8}, "lk": {"class_path": __name__ + ".LinkedReq", "init_args": {"must": 3}}, "subcommand": "fit", "fit": {"data": "d"}},
+            "eval": {"top": "t", "grp": {"need": 1}, "inner": {"x": 4}, "after": 6, "my_inner": {"z": 8}, "lk": {"class_path": __name__ + ".LinkedReq", "init_args": {"must": 3}}, "subcommand": "eval", "eval": {"ckpt": "c", "how": "fast", "fast": {"n": 2}}}}
+    required = {"fit": [["top"], ["grp", "need"], ["fit", "data"], ["inner", "x"], ["after"], ["my_inner", "z"], ["lk", "init_args", "must"]],
+                "eval": [["top"], ["grp", "need"], ["eval", "ckpt"], ["eval", "fast", "n"], ["inner", "x"], ["after"], ["my_inner", "z"], ["lk", "init_args", "must"]]}
 
     def argv_of(obj, sub):
         out = [f"--top={obj['top']}"] if obj.get("top") is not None else []
@@ -349,6 +358,10 @@ def required_family(ctx, only=None):
             out.append(f"--after={obj['after']}")
         if (obj.get("my_inner") or {}).get("z") is not None:
             out.append(f"--my-inner.z={obj['my_inner']['z']}")
+        if obj.get("lk") is not None:
+            out.append(f"--lk={obj['lk']['class_path']}")
+            if (obj["lk"].get("init_args") or {}).get("must") is not None:
+                out.append(f"--lk.init_args.must={obj['lk']['init_args']['must']}")
         out.append(sub)
         sec = obj.get(sub) or {}
         if sub == "fit":
@@ -397,7 +410,7 @@ def required_family(ctx, only=None):
 
     if only is not None and only.get("mutation") != "none":
         return one(only)
-    for sub, path, mut, channel, defaults in ([] if only is not None else itertools.product(("fit", "eval"), range(7), ("remove", "null", "remove-section"), ("object", "string", "argv", "--cfg"), (True, False))):
+    for sub, path, mut, channel, defaults in ([] if only is not None else itertools.product(("fit", "eval"), range(8), ("remove", "null", "remove-section"), ("object", "string", "argv", "--cfg"), (True, False))):
         if path >= len(required[sub]):
             continue
         key = required[sub][path]
